@@ -401,6 +401,7 @@ class Layer(object):
             if hasattr(contextual_clazz, 'INSTCOUNT'):
                 instcount = getattr(contextual_clazz, 'INSTCOUNT')
                 instcount += 1
+                setattr(contextual_clazz, 'INSTCOUNT', instcount)
             else:
                 setattr(contextual_clazz, 'INSTCOUNT', 0)
                 instcount = 0
